@@ -447,9 +447,12 @@ fn mt204() -> Model {
         for i in 0..n {
             let mut t = proto.clone();
             t["20"] = fj("Field20", &format!("TX{i}"));
-            let cents = 10_000 + 300 * i as u64;
+            // amounts whose binary representation is just below the cent (8,20 4,10 1,15 0,29 19,99 ...) when
+            // every currency has two decimals, whole units otherwise (the all-differ pattern contains JPY)
+            let awkward = [820u64, 410, 115, 29, 1999, 1001, 70, 35, 505, 1110, 257, 999];
+            let cents = if l[1] == "all-differ" { 10_000 + 300 * i as u64 } else { awkward[i % awkward.len()] };
             sum_cents += cents;
-            t["32B"] = fj("Field32B", &format!("{}{},", ccy_at(l[1], i, n), cents / 100));
+            t["32B"] = fj("Field32B", &if cents % 100 == 0 { format!("{}{},", ccy_at(l[1], i, n), cents / 100) } else { format!("{}{},{:02}", ccy_at(l[1], i, n), cents / 100, cents % 100) });
             arr.push(t);
         }
         j["#"] = Value::Array(arr);
